@@ -215,7 +215,8 @@ func drive() int {
 				"-shard", strconv.Itoa(i), "-n", strconv.Itoa(n), "-out", resf, "-seed", strconv.FormatInt(seed, 10),
 				"-deadline", strconv.FormatInt(deadline.Unix(), 10)}
 			cmd := exec.Command("sh", args...)
-			cmd.Env = append(os.Environ(), "GOMAXPROCS="+strconv.Itoa(p.MaxProcs()), "VERIF_MARK="+markf, "GOTRACEBACK=single")
+			// GOMEMLIMIT below the address-space limit: the collector works harder instead of the worker dying on garbage
+			cmd.Env = append(os.Environ(), "GOMAXPROCS="+strconv.Itoa(p.MaxProcs()), "VERIF_MARK="+markf, "GOTRACEBACK=single", "GOMEMLIMIT=1800MiB")
 			lg, _ := os.Create(filepath.Join(tmp, fmt.Sprintf("log.%d", i)))
 			cmd.Stdout, cmd.Stderr = lg, lg
 			done := make(chan error, 1)
@@ -298,6 +299,14 @@ func drive() int {
 		if out[i].slow {
 			tot.Exhaustive = false
 			tot.Notes = append(tot.Notes, fmt.Sprintf("shard %d was still making progress 900 s after the deadline and was stopped; its remaining cases were not explored (no verdict)", i))
+			continue
+		}
+		if out[i].err != nil && *fProp != "C01" && (strings.Contains(out[i].log, "out of memory") || strings.Contains(out[i].log, "cannot allocate")) {
+			// Memory is C01's subject (allocation per decode call, measured, and worker deaths there are
+			// judged). Elsewhere a worker that exhausts its 3 GiB address space — the harness keeps formatted
+			// strings, dumps and large base values alive next to the code under test — gives no verdict.
+			tot.Exhaustive = false
+			tot.Notes = append(tot.Notes, fmt.Sprintf("shard %d ran out of memory under its address-space limit and stopped; its remaining cases were not explored (no verdict)", i))
 			continue
 		}
 		if out[i].err != nil {
